@@ -3,6 +3,8 @@ package checks
 import (
 	"fmt"
 
+	"github.com/tormoder/fit"
+
 	"verifharness/lib"
 	"verifharness/ref"
 )
@@ -174,7 +176,7 @@ func registerC02() {
 		Rule: "model streams: PRNG-determined plans (file type cycles over the 17 containers; definitions = random subsets/permutations of profile fields with compatible " +
 			"definition types incl. narrower integer types, over-long arrays and strings, both byte orders, interleaved unknown fields/messages/developer fields) and the device " +
 			"corpus parsed by the independent grammar parser; family large: streams of 300-2500 records (10-120 KB) so that every kind of field, " +
-			"definition and skipped block straddles the decoder's 4096-byte buffer refills at all alignments, read through short-reading chunkers; family order-pairs: for every scalar profile field (time fields are C12's) and every base type byte and size 1..8 the same integer is written once little endian and once big endian (bytes reversed): both are rejected, or both decode to the same message; a case is non-trivial when Decode accepted it and at least one known field was compared against the model; distinct by stream digest",
+			"definition and skipped block straddles the decoder's 4096-byte buffer refills at all alignments, read through short-reading chunkers; family order-pairs: for every scalar profile field (time fields are C12's) and every base type byte and size 1..8 the same integer is written once little endian and once big endian (bytes reversed): both are rejected, or both decode to the same message; family chains: two to four model streams back to back through DecodeChained (a third of them with decode options), every file compared with the values of its own bytes, compressed timestamps and local times included; a case is non-trivial when Decode accepted it and at least one known field was compared against the model; distinct by stream digest",
 		Assume: []string{
 			"which struct field a (message, field number) pair lands in is taken from the hook table (its correctness is C15's subject)",
 			"narrow definitions never carry the narrow type's own invalid value (its meaning is not defined by the statement)",
@@ -186,6 +188,7 @@ func registerC02() {
 			{Name: "model", N: func(t string) uint64 { return tierN(t, 160000, 3000000) }, Run: c02Model},
 			{Name: "device", N: func(t string) uint64 { return uint64(len(Corpus())) }, Run: c02Device},
 			{Name: "large", N: func(t string) uint64 { return tierN(t, 1500, 60000) }, Run: c02Large},
+			{Name: "chains", N: func(t string) uint64 { return tierN(t, 12000, 300000) }, Run: c02Chain},
 			{Name: "order-pairs", N: func(t string) uint64 { return uint64(len(orderPairFields(false))) }, Run: func(c *lib.Ctx, idx uint64) { orderPairs(c, orderPairFields(false)[idx]) }},
 		},
 		Finish: func(c *lib.Ctx, cov map[string]interface{}) {
@@ -240,6 +243,68 @@ func c02Model(c *lib.Ctx, idx uint64) {
 	g := lib.NewPlanGen(rng, o)
 	plan := g.Fill()
 	checkPlanDecode(c, plan, "", true, true)
+}
+
+// c02Chain: two to four model streams back to back, decoded by DecodeChained: every file of the
+// chain must carry the values its own bytes denote - what an earlier file of the chain held
+// (time reference, definitions, byte order, unknown-item state) is not part of a later file.
+func c02Chain(c *lib.Ctx, idx uint64) {
+	rng := lib.NewRand("C02.chains", idx)
+	n := 2 + rng.Intn(3)
+	var plans []*ref.Plan
+	var exs []*lib.Expectation
+	var chain []byte
+	for k := 0; k < n; k++ {
+		o := c02Opts(rng, idx*7+uint64(k))
+		o.UndefinedLocal = 0
+		if k > 0 && rng.Chance(1, 2) {
+			// a later file that starts with records before its own first timestamp
+			o.TimeModel = 100
+			o.Compressed = 40
+		}
+		p := lib.NewPlanGen(rng, o).Fill()
+		ex, err := lib.Expect(p, lib.ExpectOpts{})
+		if err != nil {
+			c.Violation(p.Bytes(), "harness: model failed on its own plan: %v", err)
+			return
+		}
+		if ex.Fail {
+			k--
+			continue
+		}
+		plans = append(plans, p)
+		exs = append(exs, ex)
+		chain = append(chain, p.Bytes()...)
+	}
+	c.SetInflight(chain)
+	var files []*fit.File
+	var cerr error
+	var opts []fit.DecodeOption
+	if idx%3 == 1 {
+		opts = optionList(int(idx/3%8), &countingLogger{}, idx)
+	}
+	o := lib.Guard(func() {
+		files, cerr = fit.DecodeChained(lib.NewReader(chain, lib.Chunker{Kind: []string{"whole", "rand", "one"}[idx%3], Size: 700, R: rng}), opts...)
+	})
+	c.Eval()
+	if o.Panicked || o.Hang {
+		c.Violation(chain, "DecodeChained panicked/hung on %d well-formed streams back to back: %s", n, o.Panic)
+		return
+	}
+	if cerr != nil || len(files) != len(plans) {
+		c.Violation(chain, "DecodeChained over %d well-formed streams returned %d files, error %v", len(plans), len(files), cerr)
+		return
+	}
+	for k, p := range plans {
+		cs := compSkip(p, exs[k])
+		diffs := lib.CompareContent(exs[k].Content, lib.FileContent(files[k]), lib.CompareOpts{Header: true, Skip: cs})
+		if len(diffs) > 0 {
+			c.Violation(chain, "file %d of a chain of %d: decoded content differs from the wire values of that file: %s", k+1, len(plans), lib.DiffsString(diffs, 4))
+			return
+		}
+	}
+	c.Count(fmt.Sprintf("chains_of_%d", len(plans)), 1)
+	c.Nontrivial(chain)
 }
 
 // checkPlanDecode decodes the plan's bytes and compares the result with the
